@@ -102,7 +102,19 @@ func formatRequest(r *http.Request) string {
 
 // Execute is called by a Scheduler when the Trigger associated with this job fires.
 func (cu *CurlJob) Execute(ctx context.Context) error {
+	err := cu.do(ctx)
+	if cu.callback != nil {
+		cu.callback(ctx, cu)
+	}
+	return err
+}
+
+// do sends the request and stores the response and the job status.
+// The mutex is released by a deferred call, so that a panicking HTTPHandler
+// does not leave the job locked.
+func (cu *CurlJob) do(ctx context.Context) error {
 	cu.mtx.Lock()
+	defer cu.mtx.Unlock()
 	cu.request = cu.request.WithContext(ctx)
 	if cu.response != nil && cu.response.Body != nil {
 		// release the connection held by the previous response
@@ -117,11 +129,6 @@ func (cu *CurlJob) Execute(ctx context.Context) error {
 		cu.jobStatus = StatusOK
 	} else {
 		cu.jobStatus = StatusFailure
-	}
-	cu.mtx.Unlock()
-
-	if cu.callback != nil {
-		cu.callback(ctx, cu)
 	}
 	return err
 }
